@@ -122,6 +122,24 @@ type world struct {
 	cn      *simnet.ConnNet
 	V, M, H *linkpair.Stack
 	what    string
+	// fn carries the frame-level links of V's two further peers (a third of the runs)
+	fn *simnet.Net
+}
+
+// drain delivers what is in flight on the byte-level connections and on the frame-level links.
+func (w *world) drain(n int) {
+	w.cn.DrainFIFO(w.tp, n)
+	if w.fn != nil {
+		w.fn.DrainFIFO(w.tp, n)
+		w.cn.DrainFIFO(w.tp, n)
+	}
+}
+
+func (w *world) runFor(d time.Duration, n int) {
+	w.cn.RunFor(w.tp, d, n)
+	if w.fn != nil {
+		w.fn.DrainFIFO(w.tp, n)
+	}
 }
 
 func (w *world) connect(from, to *linkpair.Stack) peering.Link {
@@ -218,12 +236,26 @@ func run(e *core.Env) {
 	if lM == nil || lH == nil {
 		e.Infra("links to V did not come up")
 	}
+	// In a third of the runs V has two more peers, on frame-level links: a frame handed to such a
+	// link is written and released before Send returns - the schedule in which a link's writer
+	// is done with a frame at once. What V forwards to several peers (announcements,
+	// disconnect notices) goes to them as well.
+	if tp.Chance(1, 3) {
+		w.fn = simnet.New(e)
+		for k := 0; k < 2; k++ {
+			F := mk(fmt.Sprintf("F%d", k+1), 3+k)
+			if _, _, err := w.fn.Connect(V, F.Node, simnet.ConnectOpts{LabelAtA: m.SwitchLabel(200 + k), LabelAtB: m.SwitchLabel(77), LatencyMs: 3}); err != nil {
+				e.Infra("frame-level peer: %v", err)
+			}
+		}
+		e.Probe("victim_with_four_peers")
+	}
 	// Let announcements flow, then set up end-to-end keys M<->V.
 	w.cn.RunFor(tp, 5*time.Second+300*time.Millisecond, 20000)
-	w.cn.DrainFIFO(tp, 5000)
+	w.drain(5000)
 	if _, err := M.Router.HelloPing.Send(V.IP); err == nil {
 		simnet.Wait()
-		w.cn.DrainFIFO(tp, 2000)
+		w.drain(2000)
 	}
 	w.panics()
 	unknown := ident.Get(ident.Routable, 20+tp.Intn(8)) // identities V has never seen
@@ -245,7 +277,7 @@ func run(e *core.Env) {
 			_ = l.Send(f)
 		}
 		simnet.Wait()
-		w.cn.DrainFIFO(tp, 400)
+		w.drain(400)
 	}
 	labelsAtV := func() []m.SwitchLabel {
 		var ls []m.SwitchLabel
@@ -309,7 +341,7 @@ func run(e *core.Env) {
 			early := tp.Chance(1, 2)
 			if !early {
 				simnet.Wait()
-				w.cn.DrainFIFO(tp, 400)
+				w.drain(400)
 			}
 			for k, n := 0, 1+tp.Intn(3); k < n; k++ {
 				hdr := router.PingHeader{PingID: id, PingType: "pong", FollowUp: true}
@@ -337,7 +369,7 @@ func run(e *core.Env) {
 				w.panics()
 			}
 			simnet.Wait()
-			w.cn.DrainFIFO(tp, 400)
+			w.drain(400)
 			e.Probe("extra_answers_to_own_request")
 			e.Fault("duplicate_response")
 		case 0:
@@ -496,7 +528,7 @@ func run(e *core.Env) {
 					copy(rec[2:], d)
 					w.cn.DeliverBytes(pair.B, rec, false)
 				}
-				w.cn.DrainFIFO(tp, 50)
+				w.drain(50)
 				w.cn.DeliverBytes(pair.B, tp.Bytes(tp.Intn(3000)), false)
 			default: // noise in the middle of M's established link
 				for _, p := range w.cn.Pairs() {
@@ -506,9 +538,9 @@ func run(e *core.Env) {
 					}
 				}
 			}
-			w.cn.DrainFIFO(tp, 2000)
+			w.drain(2000)
 			_ = pair.A.Close()
-			w.cn.DrainFIFO(tp, 100)
+			w.drain(100)
 			e.Fault("inject")
 
 		default:
@@ -549,7 +581,7 @@ func run(e *core.Env) {
 							_ = M.Router.ErrorPing.SendAccessDenied(V.IP, about, []uint8{6, 17, 58}[tp.Intn(3)], uint16(1024+tp.Intn(3)))
 						}
 						simnet.Wait()
-						w.cn.DrainFIFO(tp, 400)
+						w.drain(400)
 						e.Probe("valid_error_report_in_between")
 					}
 					w.panics()
@@ -628,7 +660,25 @@ func run(e *core.Env) {
 						}
 						e.Probe("well_formed_error_report")
 					}
-					if tp.Chance(1, 4) {
+					if tp.Chance(1, 8) {
+						// a well-formed disconnect notice of the sender, as a hop ping or addressed to V
+						// (V removes the routes over the sender and passes the notice on to its
+						// other peers)
+						pt = "disconnect"
+						kind = "ping:disconnect"
+						if tp.Chance(1, 2) {
+							inner, _ = cbor.Marshal(map[string]any{"off": true})
+						} else {
+							inner, _ = cbor.Marshal(map[string]any{"d": []netip.Addr{H.IP, unknown.IP}[:1+tp.Intn(2)]})
+						}
+						if tp.Chance(2, 3) {
+							mt = []frame.MessageType{frame.RouterHopPing, frame.RouterHopPingDeprecated}[tp.Intn(2)]
+						} else {
+							mt, dst = frame.RouterPing, V.IP
+						}
+						forceCode = 0
+						e.Probe("well_formed_disconnect_notice")
+					} else if tp.Chance(1, 4) {
 						inner = mutateBytes(tp, inner)
 					}
 					body = pingBody(tp, src, pt, inner)
@@ -848,15 +898,15 @@ func run(e *core.Env) {
 					// one at a time, so that V's workers are free for each (a router sheds what
 					// arrives while its workers are busy)
 					simnet.Wait()
-					w.cn.DrainFIFO(tp, 50)
+					w.drain(50)
 				}
 				simnet.Wait()
-				w.cn.DrainFIFO(tp, 2000)
+				w.drain(2000)
 				w.panics()
 				notify, _, err := H.Router.PingPong.Send(V.IP, true, 0)
 				if err == nil {
 					simnet.Wait()
-					w.cn.RunFor(tp, 5*time.Second, 20000)
+					w.runFor(5*time.Second, 20000)
 					select {
 					case <-notify:
 						e.Probe("router_serves_others_while_one_peer_does_not_read")
@@ -866,7 +916,7 @@ func run(e *core.Env) {
 				}
 				vm.StallWrites(false)
 				simnet.Wait()
-				w.cn.DrainFIFO(tp, 5000)
+				w.drain(5000)
 				e.Fault("stalled_reader")
 			}
 		}
@@ -880,7 +930,7 @@ func run(e *core.Env) {
 			e.Fail("honest-ping-cannot-be-sent", "%v", err)
 		}
 		simnet.Wait()
-		w.cn.RunFor(tp, 5*time.Second, 20000)
+		w.runFor(5*time.Second, 20000)
 		select {
 		case <-notify:
 			e.Probe("honest_ping_pong_ok")
